@@ -1,0 +1,17 @@
+//go:build verif
+
+// Constructors used only by the deterministic-simulation harness (build tag verif).
+package transaction
+
+import (
+	proposalstore "github.com/onosproject/onos-config/pkg/store/v2/proposal"
+	transactionstore "github.com/onosproject/onos-config/pkg/store/v2/transaction"
+)
+
+func NewReconcilerForVerif(t transactionstore.Store, p proposalstore.Store) *Reconciler {
+	return &Reconciler{transactions: t, proposals: p}
+}
+func NewWatcherForVerif(t transactionstore.Store) *Watcher { return &Watcher{transactions: t} }
+func NewProposalWatcherForVerif(p proposalstore.Store) *ProposalWatcher {
+	return &ProposalWatcher{proposals: p}
+}
